@@ -185,8 +185,12 @@ func (m *MemoryAddrExp) Eval(env Env) (Exp, bool) {
 	}
 
 	// どちらの内部式も簡約されなかった場合は、元のノードを返します
+	// (ただし EQU 名がラベルのような数値でないものに展開された場合は、reduced=false のまま式だけが
+	//  置き換わっているので、展開後の式を持つ新しいノードを返す: ALIAS EQU lab / MOV AX,[ALIAS])
 	if !leftReduced && !rightReduced {
-		return m, false
+		if evalLeftExp.TokenLiteral() == m.Left.TokenLiteral() && (m.Right == nil || evalRightExp.TokenLiteral() == m.Right.TokenLiteral()) {
+			return m, false
+		}
 	}
 
 	// ラップされる可能性のある内部式を持つ新しい MemoryAddrExp を構築します
